@@ -135,6 +135,18 @@ TEXTS = ['"a"', '""', '"a b"', '"é"', '"€"', '"\U0001F600"', r'"\""', r'"\\"'
          r'"\uD800A"', r'"\u{D800}"', r'"\u{DFFF}"', r'"\u{}"', r'"\u{g}"', r'"\u12"', r'"\x41"', r'"\a"', r'"\'"', r'"a\u0000b"', r'"￿"', r'"퟿"',
          r'"\u{d7ff}"', r'"􏿿"', r'"\uDBFF\uDBFF"', '"q;c"', '"tab\\there"', r'"\u{1f600}\u{1F600}"']
 
+# systematic escape boundaries: every surrogate pair over the boundary code units, lone halves, BMP and \\u{...} boundaries
+for _hi in ("D800", "D801", "D83D", "dbfe", "DBFF"):
+    for _lo in ("DC00", "DC01", "de00", "DFFE", "DFFF", "DBFF", "E000", "0041"):
+        TEXTS.append('"\\u%s\\u%s"' % (_hi, _lo))
+        TEXTS.append('"x\\u%s\\u%sy"' % (_hi, _lo))
+for _u in ("0000", "0001", "001F", "0020", "007F", "0080", "07FF", "0800", "D7FF", "E000", "FFFD", "FFFE", "FFFF", "00e9", "DC00", "DFFF", "D800", "DBFF"):
+    TEXTS.append('"\\u%s"' % _u)
+    TEXTS.append('"a\\u%sb"' % _u)
+for _u in ("0", "7F", "80", "7FF", "800", "D7FF", "D800", "DBFF", "DC00", "DFFF", "E000", "FFFF", "10000", "1FFFF", "10FFFF", "110000", "00010FFFF", "0010ffff", "FFFFFF", "FFFFFFFFF"):
+    TEXTS.append('"\\u{%s}"' % _u)
+    TEXTS.append('"a\\u{%s}b"' % _u)
+
 BYTES = ["''", "'a'", "'abc'", "'é€'", "'q;c'", "h''", "h'00'", "h'0102'", "h'01 02'", "h'0 1 0 2'", "h'01\n02'", "h'01 ; c\n02'", "h'012'", "h'0g'", "h'AbCd'", "h'ab cd ef'",
          "H'01'", "h'01;trailing comment'", "b64''", "b64'AQI='", "b64'AQI'", "b64'AQ=='", "b64'AQ'", "b64'AQID'", "b64'A Q\nI D'", "b64'AQ ; c\nID'", "b64'-_8='", "b64'+/8='",
          "b64'+_8='", "b64'-_8'", "b64'AQI=='", "b64'A'", "b64'AQ='", "b64'AQI=x'", "b64'=AQI'", "b64'AR=='", "b64'AQJ='", "b64'!!!!'", "B64'AQI='", "b64'____'", "b64'////'",
